@@ -41,8 +41,8 @@ CHECKS = {
     },
     "C06": {
         "extra_props": ["Props/C06_machine.v"],
-        "modules": ["p_c06r", "p_c06m"],
-        "rule": "retry: seeded scenarios as C05 plus 0-2 cancel() calls per future at random virtual delays / after k delegate "
+        "modules": ["p_c06r", "p_c06m", "p_c06p", "p_c06z", "p_c06b"],
+        "rule": "p_c06p / p_c06z / p_c06b: the lockstep families of C08 (cancel() of poll futures: cancel function, veto, deregistration), C15 and C14 (cancelling the output of f_zip / f_or / f_and with inputs pending, running, done, duplicated) with the cancel-related verdicts of their monitors; retry: seeded scenarios as C05 plus 0-2 cancel() calls per future at random virtual delays / after k delegate "
                 "submissions, from separate threads; every history replayed on Model/Retry.v; distinct = distinct event traces; "
                 "non-trivial = a cancel() call was issued and a preemption occurred",
         "assumptions": ["delegate executor, callable outcomes, policy answers and the clock are environment"],
@@ -128,9 +128,9 @@ CHECKS = {
         "assumptions": ["PARTIAL: cross-layer propagation/joining is decided by the monitor on explored schedules; the gate protocol is proved for any number of threads"],
     },
     "C04": {
-        "extra_props": ["Props/C04_retry.v", "Props/C04_poll.v"],
-        "modules": ["p_c04"],
-        "rule": "seeded scenarios on real stacks: depth 1-4 over the seven layer kinds, base sync or the real ThreadPoolExecutor, client programs "
+        "extra_props": ["Props/C04_retry.v", "Props/C04_poll.v", "Props/C04_throttle.v"],
+        "modules": ["p_c04", "p_c04r"],
+        "rule": "p_c04r: the Retry lockstep family (C05) with the pending / late / deadlock verdicts (a result() or shutdown(wait=True) that would wait for ever on the submit thread); p_c04: seeded scenarios on real stacks: depth 1-4 over the seven layer kinds, base sync or the real ThreadPoolExecutor, client programs "
                 "of 1-3 threads x 1-4 operations {submit, submit whose callable submits again, cancel, add_done_callback, add_done_callback "
                 "whose callback submits again, result}, map functions that submit again, optional shutdown thread; x {random, sticky, PCT} "
                 "schedules; deadlock = every unfinished thread blocked and no timer (or only periodic timers firing for ever); each deadlock is "
